@@ -88,6 +88,31 @@ CHECKS = {
              "str.format/int(x,2)/Enum/Decimal semantics.",
         tech="Coq proof (finite sweeps by vm_compute lifted by lemmas; list induction for enums) + translator + exhaustive correspondence",
     ),
+    "C15": dict(
+        text="Coq theorems by complete enumeration, inside the kernel, of a fault-enumerating semantics of hand models of "
+             "the five file-writing entry points: with the destination existing and the flag at its DEFAULT (read from the "
+             "source by a translator, and proved false) or False, every execution fails leaving every file as it was, the "
+             "fault-free one with FileExistsError; with opt-in nothing but the destination changes. Tie: the finite grid "
+             "entry point x destination {absent, existing, same as source} x flag {default, False, True} run on real "
+             "files with the real StormLib and compared with the model.",
+        ref="DESIGN.md 5.15",
+        note="File contents are symbolic in the model. Trusted: translate_iodefaults.py; the hand models (checked by "
+             "the exhaustive correspondence of C15/C16).",
+        tech="Coq proof (exhaustive enumeration of a non-deterministic IO semantics, vm_compute) + defaults translator + exhaustive grid correspondence",
+    ),
+    "C16": dict(
+        text="Coq theorem c16_atomic_all: for save_chk_to_mpq and add_audio_files_to_mpq (0..3 sounds, 1..3 audio files, "
+             "destination absent/existing) EVERY execution of the fault-enumerating semantics (any primitive call failing "
+             "before, after or part-way) leaves the base map and inputs unchanged, no temp/.part file, and the destination "
+             "absent-as-before, its previous content, or a complete new map; plus a _refuted witness for the unrepaired "
+             "plain-copy save. Tie: each of those fault points injected into the real code running the real StormLib "
+             "(595 runs quick), observation compared with the model's execution for the same fault.",
+        ref="DESIGN.md 5.16",
+        note="Partial: StormLib's own on-disk behaviour when it fails midway and opening the base in write mode are "
+             "covered only by the hash comparison; failing cleanup calls (os.remove of a temp file) and temp-file "
+             "creation failing after creating are excluded (no program can clean up after them); SIGKILL is out of scope.",
+        tech="Coq proof (exhaustive enumeration of fault schedules of an IO-language model) + exhaustive fault-injection correspondence",
+    ),
     "C18": dict(
         text="Coq theorem C18_registries_complete_from_any_entry_point: a model of Python's import machinery (sys.modules "
              "with partially initialised modules, parent packages first, from-import of a not-yet-bound name fails, "
